@@ -318,9 +318,13 @@ def expand_line_dropping(line, params):
     """Graph meaning: one explicit parameter-free line per combination, the
     offset nodes without a previous value dropped from their expression.
 
-    Returns (lines, info) where info counts what happened."""
+    Returns (lines, info) where info counts what happened;
+    info['lines_head_kept'] are the lines of the combinations in which the
+    head expression did not vanish (used only to recognise the known
+    "emptied head drops the whole line" behaviour)."""
     items = line_items(line)
     out = []
+    kept = []
     info = {'combos': 0, 'dropped_nodes': 0, 'first_expr_vanished': 0,
             'dropped_in_mixed': 0, 'line_vanished': 0,
             'lone_first_vanished': 0, 'two_leading_dropped': 0}
@@ -354,10 +358,14 @@ def expand_line_dropping(line, params):
             else:
                 raise AssertionError('generator: mid-chain expression '
                                      'emptied')
+        head_vanished = len(chain) < len(line)
         if chain:
             out.append(' => '.join(chain))
+            if not head_vanished:
+                kept.append(out[-1])
         else:
             info['line_vanished'] += 1
+    info['lines_head_kept'] = kept
     return out, info
 
 
